@@ -557,7 +557,7 @@ pub fn run(tier: Tier, seed: u64) -> i32 {
                 }
                 let mut env = Env::new(&uni, m);
                 env.lists = Some(lists);
-                let answers: Vec<bool> = filters.iter().map(|(e, _)| Env { uni: &uni, ctx: m, lists: Some(lists), log: None, qlog: None, memo: false }.eval_filter(e)).collect();
+                let answers: Vec<bool> = filters.iter().map(|(e, _)| Env { uni: &uni, ctx: m, lists: Some(lists), log: None, qlog: None, memo: false, eager: false }.eval_filter(e)).collect();
                 let _ = env;
                 for (k, (e, f)) in filters.iter().enumerate() {
                     if f.execute(&ctx) != Ok(answers[k]) {
